@@ -666,6 +666,10 @@ def cap_oracle(res, c):
 
 def run(ctx, res):
     rng = ctx.rng
+    from . import genarith
+    # whole-function skeletons of set_p_values / summarize_status / reset_p_values: every statement must match, and their
+    # line-by-line reading is proved equal to the model of Status.v (coq/gen/GenProofs_status_skeletons.v)
+    genarith.regenerate(ctx.pid, "status_skeletons", res)
     stats = {"set": 0, "sum": 0, "reset": 0, "set_raises": 0, "sum_true": 0, "poked_single_offender": 0, "many_assertions": [],
              "many_summaries": 0}
     cases = []
@@ -673,7 +677,7 @@ def run(ctx, res):
         cases.append(run_sequence(rng, res, stats))
     for _ in range(ctx.n(300, 4000)):
         cases.append(run_poked(rng, res, stats))
-    for nw in ([1, 1, 2, 3] if ctx.quick else [1, 1, 1, 2, 2, 3, 3, 4]):
+    for nw in ([1, 1, 2, 3, 6] if ctx.quick else [1, 1, 1, 2, 2, 3, 3, 4, 6, 8]):   # 24 .. ~200 (quick) / ~280 assertions
         run_many(rng, res, stats, nw)
     cr = C.run_corr(ctx.pid, "seq", IMPORTS, "list contest * list step", cases, seq_lit, "agree_seq", shard=min(250, max(20, -(-len(cases) // 16))), show="show_seq")
     res.corr.append(("set_p_values / summarize_status / reset_p_values sequences vs Status.v", cr, seq_json))
@@ -709,7 +713,7 @@ def run(ctx, res):
                   "sequences_with_nan_p": nan_p, "sequences_with_p_exactly_at_limit": at_limit,
                   "summaries_with_mixed_assertions": mixed, "cap_cases": len(caps),
                   "cap_refused": sum(1 for c in caps if c["out"] is not None)})
-    res.stats = stats
+    res.stats.update(stats)
     res.samples = [seq_json({"config": c["config"], "order": c["order"], "steps": [{k: v for k, v in s.items() if k != "after"} for s in c["steps"]]})
                    for c in cases[:3]]
     res.rule = ("audits of 1-4 contests built by the library (plurality with 2-7 candidates and 1-2 winners, super-majority, IRV with "
